@@ -28,7 +28,7 @@ struct AppWorld {
 	std::map<std::string,int> entered;       // request tag -> main() entries
 	std::map<std::string,int> on_error;      // request tag -> content-filter on_error calls
 	std::map<std::string,int> completed;     // request tag -> handler ran to its end
-	int untagged_entries = 0;
+	int untagged_entries = 0; int filters_installed = 0;
 	std::string exception;                   // an exception that left a handler (must be handled by cppcms)
 };
 AppWorld *AW = nullptr;
@@ -86,6 +86,49 @@ public:
 		if(path.compare(0,7,"/writer") == 0) writer(); else echo();
 		{ simk::TsanIgnore ign; if(!tag.empty()) AW->completed[tag]++; }
 		if(is_asynchronous()) release_context()->async_complete_response();
+	}
+};
+
+
+// per-context data of the content-filter application
+struct FilterData {
+	std::string tag; int mode = 0;   // 1 raw, 2 multipart
+	std::string raw; int chunks = 0, end = 0, err = 0, new_file = 0, progress = 0, ready = 0; long long last_size = -1; bool size_shrank = false;
+	struct RawF : cppcms::http::raw_content_filter { FilterData *d;
+		void on_data_chunk(void const *p,size_t n) override { d->raw.append((char const *)p,n); d->chunks++; }
+		void on_end_of_content() override { d->end++; }
+		void on_error() override { d->err++; simk::TsanIgnore ign; AW->on_error[d->tag]++; } } rf;
+	struct MpF : cppcms::http::multipart_filter { FilterData *d;
+		void on_new_file(cppcms::http::file &) override { d->new_file++; d->last_size = -1; }
+		void on_upload_progress(cppcms::http::file &f) override { d->progress++; if((long long)f.size() < d->last_size) d->size_shrank = true; d->last_size = f.size(); }
+		void on_data_ready(cppcms::http::file &) override { d->ready++; }
+		void on_end_of_content() override { d->end++; }
+		void on_error() override { d->err++; simk::TsanIgnore ign; AW->on_error[d->tag]++; } } mf;
+	FilterData(){ rf.d = this; mf.d = this; }
+};
+class FilterApp : public TestApp {
+public:
+	FilterApp(cppcms::service &s) : TestApp(s) {}
+	virtual void main(std::string path){
+		std::string tag = request().getenv("HTTP_X_REQ_ID");
+		if(!request().is_ready()){
+			// called before the content is read: install the content filter
+			FilterData *fd = new FilterData; fd->tag = tag; fd->mode = path.compare(0,5,"/echo") == 0 && path.find("mp") != std::string::npos ? 2 : 1;
+			if(request().content_type_parsed().is_multipart_form_data() == false) fd->mode = 1;
+			context().reset_specific<FilterData>(fd);
+			if(fd->mode == 1) request().set_content_filter(fd->rf); else request().set_content_filter(fd->mf);
+			{ simk::TsanIgnore ign; AW->filters_installed++; }
+			return;
+		}
+		{ simk::TsanIgnore ign; if(tag.empty()) AW->untagged_entries++; else AW->entered[tag]++; }
+		echo();
+		FilterData *fd = context().get_specific<FilterData>();
+		if(fd){ std::ostringstream x; x << "X mode=" << fd->mode << " end=" << fd->end << " err=" << fd->err;
+			if(fd->mode == 1) x << " raw " << blob(fd->raw) << " chunks>0=" << (fd->chunks > 0);
+			else x << " new=" << fd->new_file << " ready=" << fd->ready << " shrank=" << fd->size_shrank;
+			response().out() << x.str() << "\n"; }
+		{ simk::TsanIgnore ign; if(!tag.empty()) AW->completed[tag]++; }
+		release_context()->async_complete_response();
 	}
 };
 
@@ -199,12 +242,14 @@ struct E1 : Engine {
 		int n = 1 + r.below(3); for(int i=0;i<n;i++) a.push((int)(1 + r.below(len + 1))); return a; }
 	static std::string rnd_token(simk::Rng &r,int minl,int maxl){ static const char al[] = "abcdefghijklmnopqrstuvwxyzABCDEFGHIJKLMNOPQRSTUVWXYZ0123456789-_.~"; int n = minl + r.below(maxl-minl+1); std::string s; for(int i=0;i<n;i++) s += al[r.below(sizeof(al)-1)]; return s; }
 	static std::string rnd_urlenc(simk::Rng &r,int maxl){ std::string s; int n = r.below(maxl+1); for(int i=0;i<n;i++){ unsigned x = r.below(10); if(x < 6) s += "abcXYZ019-_.~"[r.below(13)]; else if(x < 8){ char b[8]; snprintf(b,sizeof(b),"%%%02X",(unsigned)(1 + r.below(254))); s += b; } else if(x == 8) s += '+'; else s += "%2F"; } return s; }
-	static size_t &gen_limit(){ static size_t v = 0; return v; }   // content limit (bytes) of the run being generated, 0 = default
+	static size_t &gen_limit(){ static size_t v = 0; return v; }
+	static size_t &gen_budget(){ static size_t v = 1u<<30; return v; }   // largest request body affordable with this run's buffer / channel sizes   // content limit (bytes) of the run being generated, 0 = default
 	static J gen_req(simk::Rng &r,const std::string &prop,bool thorough,bool async_mount,int idx){
 		J q = J::obj();
 		static const char *methods[] = {"GET","GET","POST","POST","PUT","DELETE","OPTIONS","X-Custom.Method"};
 		std::string m = methods[r.below(8)]; q["method"] = m; q["script"] = async_mount ? "/a" : "/s";
-		std::string path = "/echo"; int ns = r.below(4); for(int i=0;i<ns;i++){ path += "/"; unsigned x = r.below(8); if(x == 0) path += ""; else if(x == 1) path += "%41b%2Fc"; else if(x == 2) path += "a%20b"; else if(x == 3) path += "."; else path += rnd_token(r,1,8); }
+		bool filt = async_mount && (m == "POST" || m == "PUT") && (prop == "C12" || prop == "C02") && r.below(3) == 0; if(filt) q["script"] = "/f";
+		std::string path = filt && r.below(2) ? "/echomp" : "/echo"; int ns = r.below(4); for(int i=0;i<ns;i++){ path += "/"; unsigned x = r.below(8); if(x == 0) path += ""; else if(x == 1) path += "%41b%2Fc"; else if(x == 2) path += "a%20b"; else if(x == 3) path += "."; else path += rnd_token(r,1,8); }
 		q["path"] = path;
 		if(r.below(3)){ std::string qs; int n = r.below(5); for(int i=0;i<n;i++){ if(i) qs += "&"; qs += rnd_token(r,1,5) + (r.below(8) ? "=" : "") ; qs += rnd_urlenc(r,10); if(r.below(12)==0) qs += "&" ; } q["query"] = qs; q["has_query"] = true; }
 		J hs = J::arr(); int nh = r.below(7); if(r.below(6) == 0) nh = 20 + r.below(120);   // many headers: the environment table grows through several sizes
@@ -215,7 +260,7 @@ struct E1 : Engine {
 		if((m == "POST" || m == "PUT") && (prop == "C12" ? r.below(10) < 8 : r.below(10) == 0)){
 			static const char bal[] = "abcdefghijklmnopqrstuvwxyzABCDEFGHIJKLMNOPQRSTUVWXYZ0123456789-_"; int bl = 1 + r.below(r.below(3) ? 30 : 70); std::string bnd; for(int i=0;i<bl;i++) bnd += bal[r.below(sizeof(bal)-1)]; if(r.below(6) == 0) bnd = "-" + bnd; if(bnd.size() > 70) bnd.resize(70);
 			q["body_kind"] = "multipart"; q["boundary"] = bnd; q["content_type"] = "multipart/form-data; boundary=" + bnd;
-			J parts = J::arr(); int np = r.below(prop == "C12" ? 9 : 4); size_t budget = thorough ? 300000 : 60000;
+			J parts = J::arr(); int np = r.below(prop == "C12" ? 9 : 4); size_t budget = std::min<size_t>(thorough ? 300000 : 60000,gen_budget());
 			for(int i=0;i<np;i++){ J pt = J::obj(); pt["name"] = rnd_token(r,1,10) + std::to_string(i); pt["quoted"] = (int)(r.below(4) != 0); bool file = r.below(2);
 				if(file){ pt["filename"] = r.below(5) ? rnd_token(r,1,12) + ".bin" : std::string(""); pt["has_filename"] = 1; static const char *cts[] = {"application/octet-stream","text/plain","image/png","text/plain; charset=utf-8"}; pt["ctype"] = cts[r.below(4)]; }
 				unsigned x = r.below(10); size_t len = x < 5 ? r.below(200) : x < 8 ? r.below(5000) : r.below(budget); if(len > budget) len = budget; budget -= len; if(!file && len > 3000) len = r.below(3000);
@@ -226,13 +271,13 @@ struct E1 : Engine {
 		}
 		else if(m == "POST" || m == "PUT"){ unsigned x = r.below(10); size_t maxb = thorough ? 262144 : 65536;
 			if(x < 4){ std::string b; int n = r.below(8); for(int i=0;i<n;i++){ if(i) b += "&"; b += rnd_token(r,1,6) + "=" + rnd_urlenc(r,30); } q["body_kind"] = "form"; q["body"] = b; q["content_type"] = "application/x-www-form-urlencoded"; }
-			else if(x < 9){ size_t len = r.below(4) == 0 ? r.below(maxb) : r.below(3000); q["body_kind"] = "raw"; q["body_len"] = (long long)len; q["body_seed"] = (long long)r.below(1000000); q["body_fill"] = (int)r.below(3); q["content_type"] = r.below(2) ? "application/octet-stream" : "text/plain; charset=utf-8"; }
+			else if(x < 9){ maxb = std::min(maxb,gen_budget()); size_t len = r.below(4) == 0 ? r.below(maxb) : r.below(std::min<size_t>(3000,maxb)); q["body_kind"] = "raw"; q["body_len"] = (long long)len; q["body_seed"] = (long long)r.below(1000000); q["body_fill"] = (int)r.below(3); q["content_type"] = r.below(2) ? "application/octet-stream" : "text/plain; charset=utf-8"; }
 			else { q["body_kind"] = "raw"; q["body_len"] = 0; q["body_seed"] = 1; q["content_type"] = "application/octet-stream"; } }
 		(void)prop; (void)idx;
 		return q;
 	}
 	static Req req_from(const J &q){
-		Req r; r.method = q.gets("method","GET"); if(r.method.empty()) r.method = "GET"; r.script = q.gets("script","/s"); if(r.script != "/a") r.script = "/s"; r.path = q.gets("path","/echo"); if(r.path.empty() || r.path[0] != '/') r.path = "/" + r.path;
+		Req r; r.method = q.gets("method","GET"); if(r.method.empty()) r.method = "GET"; r.script = q.gets("script","/s"); if(r.script != "/a" && r.script != "/f") r.script = "/s"; r.path = q.gets("path","/echo"); if(r.path.empty() || r.path[0] != '/') r.path = "/" + r.path;
 		r.has_query = q.geti("has_query"); r.query = q.gets("query");
 		const J &hs = q.get("headers"); for(size_t i=0;i<hs.size();i++) if(hs.a[i].size() >= 2) r.headers.push_back({hs.a[i].a[0].s,hs.a[i].a[1].s});
 		const J &cs = q.get("cookies"); for(size_t i=0;i<cs.size();i++) if(cs.a[i].size() >= 2){ r.cookies.push_back({cs.a[i].a[0].s,cs.a[i].a[1].s}); r.cookie_quoted.push_back(cs.a[i].size() > 2 ? (int)cs.a[i].a[2].as_int() : 0); }
@@ -279,6 +324,7 @@ struct E1 : Engine {
 			J rp = J::arr(); int nrp = r.below(4); for(int i=0;i<nrp;i++) rp.push((int)(1 + r.below(r.below(2) ? 16 : 5000))); c["read_pace"] = rp; c["start_delay_us"] = (int)r.below(2000);
 			bool bad_conn = prop == "C02" && (ci == 0 || r.below(2));
 			bool http11 = r.below(2); c["http11"] = http11; int nreq = proto == 1 ? 1 : 1 + r.below(bad_conn ? 2 : 4); bool ka = nreq > 1 || r.below(3) == 0; c["keepalive"] = ka;
+			{ int narrow = std::min((int)cfg.geti("input_buffer_size"),(int)c.geti("cap_to_server")); gen_budget() = narrow <= 8 ? 2500 : narrow <= 64 ? 16000 : 1u<<30; }
 			J exs = J::arr();
 			for(int i=0;i<nreq;i++){ J e = J::obj(); { char tb[40]; snprintf(tb,sizeof(tb),"q%dz%06llx",tagn,(unsigned long long)(wire::fnv("tag" + std::to_string(tagn)) & 0xffffff)); tagn++; e["tag"] = tb; }   // self-checking: a mutated tag cannot turn into another request's tag
 				if(prop == "C03" || (prop != "C01" && r.below(4) == 0)){
@@ -335,7 +381,8 @@ struct E1 : Engine {
 		else if(op == "garbage"){ w = gen_bytes((uint64_t)m.geti("pos"),len,0); }
 		else if(op == "dup_tail"){ w += w.substr(pos); }
 		else if(op == "mp_no_final_boundary" || op == "mp_bad_part_header" || op == "mp_no_name"){
-			Req q2 = q; q2.method = "POST"; q2.has_body = true; q2.boundary = "XbndX"; q2.content_type = "multipart/form-data; boundary=XbndX"; q2.parts.clear(); Req::Part pt; pt.name = "f"; pt.has_filename = true; pt.filename = "a.bin"; pt.ctype = "text/plain"; pt.content = gen_bytes(5,len % 600,1); q2.parts.push_back(pt); pt.name = "g"; pt.ctype = ""; pt.has_filename = false; pt.content = "v"; q2.parts.push_back(pt);
+			Req q2 = q; if(q2.script == "/f") q2.script = "/a";   // behind a raw content filter nothing parses the body: it would be served
+			q2.method = "POST"; q2.has_body = true; q2.boundary = "XbndX"; q2.content_type = "multipart/form-data; boundary=XbndX"; q2.parts.clear(); Req::Part pt; pt.name = "f"; pt.has_filename = true; pt.filename = "a.bin"; pt.ctype = "text/plain"; pt.content = gen_bytes(5,len % 600,1); q2.parts.push_back(pt); pt.name = "g"; pt.ctype = ""; pt.has_filename = false; pt.content = "v"; q2.parts.push_back(pt);
 			std::string b = multipart_body(q2);
 			if(op == "mp_no_final_boundary") b = b.substr(0,b.size() - std::string("--XbndX--\r\n").size());
 			else if(op == "mp_bad_part_header"){ size_t h = b.find("Content-Disposition:"); b.replace(h,20,"Content-Disposition "); }
@@ -444,7 +491,7 @@ struct E1 : Engine {
 			v["service"]["worker_threads"] = (int)std::max<int64_t>(1,std::min<int64_t>(cfg.geti("worker_threads",2),6)); v["service"]["disable_global_exit_handling"] = true;
 			v["service"]["reactor"] = rt == 0 ? "epoll" : rt == 1 ? "poll" : "select";
 			v["service"]["output_buffer_size"] = (int)std::max<int64_t>(0,std::min<int64_t>(cfg.geti("output_buffer_size",16384),1<<20)); v["service"]["async_output_buffer_size"] = (int)std::max<int64_t>(0,std::min<int64_t>(cfg.geti("async_output_buffer_size",1024),1<<20)); v["service"]["input_buffer_size"] = (int)std::max<int64_t>(1,std::min<int64_t>(cfg.geti("input_buffer_size",65536),1<<20));
-			v["http"]["script_names"][0] = "/s"; v["http"]["script_names"][1] = "/a"; v["http"]["timeout"] = (int)std::max<int64_t>(2,std::min<int64_t>(cfg.geti("http_timeout",30),120));
+			v["http"]["script_names"][0] = "/s"; v["http"]["script_names"][1] = "/a"; v["http"]["script_names"][2] = "/f"; v["http"]["timeout"] = (int)std::max<int64_t>(2,std::min<int64_t>(cfg.geti("http_timeout",30),120));
 			v["gzip"]["enable"] = (bool)cfg.geti("gzip"); if(cfg.geti("gzip_level",-1) >= 0) v["gzip"]["level"] = (int)std::min<int64_t>(cfg.geti("gzip_level"),9); if(cfg.geti("gzip_buffer") > 0) v["gzip"]["buffer"] = (int)cfg.geti("gzip_buffer");
 			v["cache"]["backend"] = "thread_shared"; v["cache"]["limit"] = 16;
 			v["localization"]["locales"][0] = "C"; v["localization"]["backend"] = "std"; v["logging"]["stderr"] = false; v["logging"]["level"] = "error";
@@ -457,6 +504,7 @@ struct E1 : Engine {
 				srv.reset(new cppcms::service(v));
 				srv->applications_pool().mount(cppcms::create_pool<TestApp>(),cppcms::mount_point("/s"),cppcms::app::synchronous);
 				srv->applications_pool().mount(cppcms::create_pool<TestApp>(),cppcms::mount_point("/a"),cppcms::app::asynchronous);
+				srv->applications_pool().mount(cppcms::create_pool<FilterApp>(),cppcms::mount_point("/f"),cppcms::app::asynchronous | cppcms::app::content_filter);
 			} catch(std::exception const &e){ res.fail("setup-failed",e.what()); }
 			if(res.ok){
 				const J &conns = plan.get("conns");
@@ -492,7 +540,7 @@ struct E1 : Engine {
 		AW = nullptr;
 		// ------------------------------------------------------------ oracles
 		std::map<std::string,std::string> cache_pages;
-		int n_over_limit = 0; int n_gzip_empty = 0; int n_bad = 0, n_bad_refused = 0; int n_cache_hits = 0; int n_ex = 0, n_multi_seg = 0, n_body = 0, n_keepalive_followups = 0, n_writer = 0, n_gzip = 0, n_chunked = 0;
+		int n_on_error = 0; int n_filtered = 0; int n_over_limit = 0; int n_gzip_empty = 0; int n_bad = 0, n_bad_refused = 0; int n_cache_hits = 0; int n_ex = 0, n_multi_seg = 0, n_body = 0, n_keepalive_followups = 0, n_writer = 0, n_gzip = 0, n_chunked = 0;
 		for(auto &cl:clients){ int port = 8080; bool conn_had_error = false;
 			for(size_t i=0;i<cl->ex.size() && res.ok;i++){ Exchange &e = cl->ex[i]; n_ex++; if(e.seg.size() > 1) n_multi_seg++; if(e.req.has_body && !e.req.body.empty()) n_body++; if(i > 0 && !e.conn_closed_early) n_keepalive_followups++;
 				std::string who = std::string(cl->proto == 0 ? "http" : cl->proto == 1 ? "scgi" : "fastcgi") + " " + e.req.script + " request " + e.tag;
@@ -517,7 +565,8 @@ struct E1 : Engine {
 				if(cl->proto == 2){ if(!e.fo.framing_error.empty()){ res.fail("bad-response-framing",who + ": " + e.fo.framing_error); break; } if(!e.fo.end){ res.fail("bad-response-framing",who + ": no END_REQUEST record"); break; } if(!e.fo.empty_stdout_seen && !e.fo.out.empty()){ res.fail("bad-response-framing",who + ": STDOUT stream not closed by an empty record"); break; }
 					if(e.fo.proto_status != 0 || e.fo.app_status != 0){ res.fail("bad-response-framing",who + ": END_REQUEST status " + std::to_string(e.fo.proto_status) + "/" + std::to_string(e.fo.app_status)); break; } }
 				if(!e.resp.complete){ res.fail("request-not-answered",who + ": connection closed without a complete response, raw: " + esc(e.raw.substr(0,200))); break; }
-				bool over = false; if(!e.is_writer && e.req.has_body){ if(!e.req.boundary.empty()){ over = e.req.body.size() > multipart_limit; for(auto &pt:e.req.parts) if(pt.ctype.empty() && pt.content.size() > content_limit) over = true; } else over = e.req.body.size() > content_limit; }
+				bool raw_filtered = e.req.script == "/f" && !(e.req.path.compare(0,7,"/echomp") == 0 && !e.req.boundary.empty());
+				bool over = false; if(!e.is_writer && e.req.has_body){ if(!e.req.boundary.empty()){ over = e.req.body.size() > multipart_limit; if(!raw_filtered) for(auto &pt:e.req.parts) if(pt.ctype.empty() && pt.content.size() > content_limit) over = true; } else over = e.req.body.size() > content_limit; }
 				if(e.resp.complete && e.resp.status >= 400) conn_had_error = true;
 				if(over){ n_over_limit++; int ent0 = aw.entered.count(e.tag) ? aw.entered[e.tag] : 0;
 					if(e.resp.status != 413){ res.fail("limit-not-enforced",who + ": body of " + std::to_string(e.req.body.size()) + " bytes exceeds the configured limit but was answered with status " + std::to_string(e.resp.status)); break; }
@@ -532,7 +581,13 @@ struct E1 : Engine {
 				if(e.resp.chunked) n_chunked++;
 				if(!e.is_writer){
 					Expect x = expect(e.req,cl->proto,e.http11,cl->proto == 0 && e.keepalive,port);
-					std::string want = echo_text(x.env,x.get,x.post,x.cookies,x.body,x.files);
+					std::string want;
+					if(e.req.script == "/f" && e.req.has_body && !e.req.body.empty()){ n_filtered++;
+						bool mp = e.req.path.compare(0,7,"/echomp") == 0 && !e.req.boundary.empty();
+						if(!mp){ // raw filter: the application parses nothing, the filter saw every byte exactly once
+							want = echo_text(x.env,x.get,Pairs(),x.cookies,"",std::vector<std::string>()) + "X mode=1 end=1 err=0 raw " + blob(e.req.body) + " chunks>0=1\n"; }
+						else want = echo_text(x.env,x.get,x.post,x.cookies,x.body,x.files) + "X mode=2 end=1 err=0 new=" + std::to_string(e.req.parts.size()) + " ready=" + std::to_string(e.req.parts.size()) + " shrank=0\n"; }
+					else want = echo_text(x.env,x.get,x.post,x.cookies,x.body,x.files);
 					if(body != want){ res.fail("request-misdelivered",who + ": the application observed a different request. " + first_diff(body,want)); break; }
 				} else { n_writer++;
 					std::string want = script_body(normalise_script(e.script),e.salt); const J *ck = nullptr; (void)ck;
@@ -555,9 +610,10 @@ struct E1 : Engine {
 		if(!upload_dir.empty()){ std::string left; if(DIR *d = opendir(upload_dir.c_str())){ while(struct dirent *de = readdir(d)){ if(de->d_name[0] != '.'){ left += std::string(" ") + de->d_name; std::string f = upload_dir + "/" + de->d_name; unlink(f.c_str()); } } closedir(d); } rmdir(upload_dir.c_str());
 			if(res.ok && !left.empty()) res.fail("upload-temp-file-left","temporary upload files survived their requests:" + left); }
 		if(res.ok && conn_leak) res.fail("connection-not-released",std::to_string(conn_leak) + " accepted connections were still open after every peer had gone and the longest time-out had passed");
+		if(res.ok) for(auto &kv:aw.on_error){ if(kv.second > 1) res.fail("upload-error-notified-twice","request " + kv.first + ": content filter on_error() called " + std::to_string(kv.second) + " times"); else if(aw.completed.count(kv.first)) res.fail("error-and-completion","request " + kv.first + ": on_error() was called and the handler completed as well"); n_on_error += kv.second; }
 		if(res.ok && leaked) res.fail("descriptor-leak",std::to_string(leaked) + " simulated descriptors still open after the service was destroyed");
 		if(res.ok && !aw.exception.empty()) res.fail("exception-escaped",aw.exception);
-		res.counters["over_limit_413"] = n_over_limit; res.counters["gzip_announced_empty_body"] = n_gzip_empty; res.counters["malformed_exchanges"] = n_bad; res.counters["malformed_refused_as_required"] = n_bad_refused; res.counters["page_cache_hits"] = n_cache_hits; res.counters["exchanges"] = n_ex; res.counters["multi_segment_requests"] = n_multi_seg; res.counters["requests_with_body"] = n_body; res.counters["keepalive_followups"] = n_keepalive_followups; res.counters["writer_responses"] = n_writer; res.counters["gzip_responses"] = n_gzip; res.counters["chunked_responses"] = n_chunked;
+		res.counters["filter_on_error_calls"] = n_on_error; res.counters["content_filter_requests"] = n_filtered; res.counters["filters_installed"] = aw.filters_installed; res.counters["over_limit_413"] = n_over_limit; res.counters["gzip_announced_empty_body"] = n_gzip_empty; res.counters["malformed_exchanges"] = n_bad; res.counters["malformed_refused_as_required"] = n_bad_refused; res.counters["page_cache_hits"] = n_cache_hits; res.counters["exchanges"] = n_ex; res.counters["multi_segment_requests"] = n_multi_seg; res.counters["requests_with_body"] = n_body; res.counters["keepalive_followups"] = n_keepalive_followups; res.counters["writer_responses"] = n_writer; res.counters["gzip_responses"] = n_gzip; res.counters["chunked_responses"] = n_chunked;
 		res.counters["steps"] = (long long)st.steps; res.counters["switches"] = (long long)st.switches; res.counters["short_reads"] = (long long)st.short_reads; res.counters["short_writes"] = (long long)st.short_writes; res.counters["eagain"] = (long long)(st.eagain_r + st.eagain_w);
 		res.counters["eintr"] = (long long)st.eintr; res.counters["spurious_wakeups"] = (long long)st.spurious; res.counters["accepts"] = (long long)st.accepts; res.counters["bytes_to_server"] = (long long)st.bytes_rx; res.counters["bytes_to_client"] = (long long)st.bytes_tx;
 		res.counters["sim_seconds"] = 0; res.counters[rt == 0 ? "reactor_epoll" : rt == 1 ? "reactor_poll" : "reactor_select"] = 1;
